@@ -46,6 +46,11 @@ SCENARIOS = [
                               "| { a = S 2, b } -> 0\n| { a = S k, b = (m, S _) } -> 1\n| { a = S k, b = (m, N) } -> k + m\n| _ -> 9\n"),
     ("open-row-after-let-projection", "(((\\v1 -> (let v2 = (v1).x in v1)) { x = 1 })).y\n"),
     ("projection-of-identity-application", "((\\v1 -> v1) { x = 1 }).x\n"),
+    # a let-bound function whose body uses an implicit argument with exactly one instance in scope: the instance must
+    # not fix the function's parameter type behind the back of generalisation
+    ("implicit-unique-instance-other-type", "#[implicit]\ntype Wt a = { wt : a -> Int }\nlet wt ?d : [Wt a] -> a -> Int = d.wt\nlet wt_int : Wt Int = { wt = \\x -> x #Int* 2 }\nlet g x = wt x\ng \"s\"\n"),
+    ("implicit-unique-instance-same-type", "#[implicit]\ntype Wt a = { wt : a -> Int }\nlet wt ?d : [Wt a] -> a -> Int = d.wt\nlet wt_int : Wt Int = { wt = \\x -> x #Int* 2 }\nlet g x = wt x\ng 21\n"),
+    ("implicit-unique-instance-two-levels", "#[implicit]\ntype Wt a = { wt : a -> Int }\nlet wt ?d : [Wt a] -> a -> Int = d.wt\nlet wt_str : Wt String = { wt = \\x -> 7 }\nlet g x = wt x\nlet h y = g y\nh 1\n"),
     ("rec-group-of-functions", "rec let ev n : Int -> Int = if n == 0 then 1 else od (n - 1)\nlet od n : Int -> Int = if n == 0 then 0 else ev (n - 1)\nev 10\n"),
     ("nested-patterns-total", "type T = | S Int | N\nmatch { a = S 1, b = (2, N) } with\n| { a = S k, b = (m, _) } -> k + m\n| { a = N, b = _ } -> 0\n"),
 ]
